@@ -51,11 +51,23 @@ def gen(rng, suite, n_creds=None, kinds=None, heavy=False, shared_issuer=None, e
     for ci, c in enumerate(creds):
         used[ci] = set()
     # predicates
-    if "eq" in kinds and n_creds >= 2 and rng.random() < 0.7:
-        shape = eq_shape if eq_shape is not None else (rng.choice(["one", "chain", "star"]) if n_creds >= 3 else "one")
+    if "eq" in kinds and n_creds >= 2 and (eq_shape is not None or rng.random() < 0.7):
+        shape = eq_shape if eq_shape is not None else (rng.choice(["one", "chain", "star", "chain_rev", "star_last", "mixed"]) if n_creds >= 3 else "one")
         if shape == "chain":      # pairwise statements a=b, b=c, ...: a claim is a later entry of one statement and the first of the next
             for ci in range(n_creds - 1):
                 preds.append({"k": "eq", "id": f"e{ci}", "refs": [[f"s{ci}", 1], [f"s{ci + 1}", 1]]})
+        elif shape == "chain_rev":  # b=a, c=b, ...: the claim shared with the earlier statement is listed last in the later one
+            for ci in range(n_creds - 1):
+                preds.append({"k": "eq", "id": f"e{ci}", "refs": [[f"s{ci + 1}", 1], [f"s{ci}", 1]]})
+        elif shape == "star_last":  # b=a, c=a, ...
+            for ci in range(1, n_creds):
+                preds.append({"k": "eq", "id": f"e{ci - 1}", "refs": [[f"s{ci}", 1], ["s0", 1]]})
+        elif shape == "mixed":      # overlapping statements, each listing its members in a random order
+            for ci in range(n_creds - 1):
+                members = [ci, ci + 1] + ([rng.randrange(n_creds)] if rng.random() < 0.4 else [])
+                members = list(dict.fromkeys(members))
+                rng.shuffle(members)
+                preds.append({"k": "eq", "id": f"e{ci}", "refs": [[f"s{m}", 1] for m in members]})
         elif shape == "star":     # a=b, a=c, ...
             for ci in range(1, n_creds):
                 preds.append({"k": "eq", "id": f"e{ci - 1}", "refs": [["s0", 1], [f"s{ci}", 1]]})
